@@ -3,6 +3,7 @@ from contracts.C03_container_validate import ContainerValidate
 from contracts.C04_field_validate import ArrayValidate
 from contracts.C05_component_restore import RunSchemaComponentChecks
 from contracts.C06_run_checks import ArrayCollect, ArrayCollectPrefix
+from contracts.C19_check_options import PostprocessField, RunCheck  # which cells a failing check reports
 from contracts.C03_polars_container_validate import PolarsContainerValidate
 
-CONTRACTS = [ArrayCollect, ArrayCollectPrefix, RunSchemaComponentChecks, ContainerValidate, ArrayValidate, PolarsContainerValidate]
+CONTRACTS = [ArrayCollect, ArrayCollectPrefix, RunSchemaComponentChecks, ContainerValidate, ArrayValidate, PolarsContainerValidate, PostprocessField, RunCheck]
